@@ -268,14 +268,17 @@ impl MultiReceiver {
     ///
     /// Cleanup shall be call from time to time to avoid consuming to much memory    
     pub fn cleanup(&mut self, now: SystemTime) {
+        // Evaluate the expiration of each session only once: is_expired() reads the clock,
+        // a session expiring between two evaluations would be removed without notifying the listeners
         let mut output = Vec::new();
-        for receiver in &self.alc_receiver {
-            if receiver.1.is_expired() {
-                output.push(receiver.0.clone());
+        self.alc_receiver.retain(|k, v| {
+            if v.is_expired() {
+                output.push(k.clone());
+                false
+            } else {
+                true
             }
-        }
-
-        self.alc_receiver.retain(|_, v| !v.is_expired());
+        });
         for receiver in &mut self.alc_receiver.values_mut() {
             receiver.cleanup(now);
         }
